@@ -10,10 +10,7 @@ import (
 )
 
 var notApplicable = map[string]string{
-	"C28": "The property is about the execution semantics of a Bitcoin script produced from a format string; deciding it needs a script interpreter, i.e. running code. No clause is visible in the shape of the Go source.",
-	"C29": "Round-trip equality over all transactions, hashes and headers is value-level; beyond what the compiler already enforces there is no structural clause whose breakage breaks the behaviour and that a static rule could decide.",
 	"C32": "Minimality and sufficiency of the required confirmations is big-integer arithmetic over runtime difficulties; no sound static argument in reach bounds it.",
-	"C41": "One-line delegations to btcec and keep-common's encryption box; the property is about values computed inside those libraries.",
 }
 
 const pendingReason = "No static rule is registered for this property in the current checker build (planned in DESIGN.md section 3; not claimed until its rule exists and is silent on the pinned tree)."
